@@ -194,8 +194,10 @@ class SymStream:
             # bound the concretisation by what is left in the stream
             if sym.ENG.decide((n > rem).t):
                 n = rem
-            else:
+            elif rem <= 16:
                 n = sym.ENG.concretize(n.t, limit=rem + 2, small=rem + 1)
+            else:
+                n = sym.ENG.concretize(n.t)
         if n is None or n < 0:
             n = rem
         k = min(n, rem)
